@@ -89,6 +89,7 @@ structure ServeCase where
   noHandler : Bool := false
   trace : Bool := false
   blk : Bool := false
+  app : List Bytes := []
   segs : List Bytes := []
   script : List HRes := []
   floats : List (Bytes × UInt64) := []
@@ -101,6 +102,7 @@ def parseServeCase (ts : List String) : ServeCase :=
     else if t == "nohandler" then { c with noHandler := true }
     else if t == "trace" then { c with trace := true }
     else if t == "blk" then { c with blk := true }
+    else if t.startsWith "app=" then { c with app := ((t.drop 4).toString.splitOn ",").map unhex }
     else c) {}
   { c with segs := (secs.getD 1 []).map unhex, script := parseScript (secs.getD 2 []),
            floats := parseFloatTable (secs.getD 3 []) }
@@ -117,7 +119,7 @@ def countRoot : List Ev → Nat
 
 def runServeCase (c : ServeCase) : String :=
   let pf : FloatOracle := fun tok => c.floats.lookup tok
-  let srv : SrvSt := { authPw := c.pw, hasHandler := !c.noHandler,
+  let srv : SrvSt := { authPw := c.pw, hasHandler := !c.noHandler, appGet := c.app,
                        config := (match c.pw with | some p => [(b!"requirepass", p)] | none => []) ++ [(b!"port", b!"6379")] }
   let input := c.segs.flatten
   let evs := serve pf srv c.pw.isSome input c.script
